@@ -36,7 +36,7 @@ LEVEL_NOTE = "Trusted: numpy comparisons and min/max; sklearn's check_random_sta
 TECHNIQUE = "runtime postcondition monitors (closed-box predicate, tight bounds, pad algebra, accept/reject equivalence of check_region) on every direct and nested call; seeded boundary-heavy workload"
 FLOORS = {
     "quick": {"eval:inside": 600, "eval:get_region": 350, "eval:pad_region": 380, "eval:scatter_points": 600, "eval:project_region": 60,
-              "eval:maxabs": 160, "eval:check_region": 2400, "eval:rejection": 900, "eval:grid_nodes_inside": 200, "distinct_nontrivial": 1300, "eval:arguments_unmodified": 5000, "class:get_region_wide_dtype": 40, "class:region_as_ndarray": 60, "class:inside_nan_coordinates": 70, "class:projection_polar": 12, "class:maxabs_masked_array": 40, "class:concurrent_calls": 12},
+              "eval:maxabs": 160, "eval:check_region": 2400, "eval:rejection": 900, "eval:grid_nodes_inside": 200, "distinct_nontrivial": 1300, "eval:arguments_unmodified": 5000, "class:get_region_wide_dtype": 40, "class:region_as_ndarray": 60, "class:inside_nan_coordinates": 70, "class:projection_polar": 12, "class:maxabs_masked_array": 40, "class:zero_stride_coordinates": 25, "class:project_zero_extent_region": 100, "class:concurrent_calls": 12},
     "thorough": {"eval:inside": 8000, "eval:get_region": 4500, "eval:check_region": 30000, "eval:rejection": 10000, "distinct_nontrivial": 15000},
 }
 JOBS = {"quick": 1, "thorough": 16}
@@ -450,6 +450,20 @@ def run_case(run, tap, stream, index, rng):
                     north = east[::-1] * np.longdouble(3)
                 ce = _shaped(rng, east)
                 cn = np.asarray(north).reshape(np.shape(ce)) if not hasattr(ce, "index") else type(ce)(north, index=ce.index)
+                if pick >= 0.4 and k > 1 and rng.random() < 0.3:
+                    # zero-stride views (numpy.meshgrid(copy=False), numpy.broadcast_to, a constant broadcast from a scalar): the two
+                    # arrays have the same shape but not the same memory layout
+                    e1, n1 = np.unique(east)[: int(rng.integers(2, 7))], np.unique(north)[: int(rng.integers(2, 6))]
+                    form = int(rng.integers(0, 4))
+                    if form == 0:
+                        ce, cn = np.meshgrid(e1, n1, copy=False)
+                    elif form == 1:
+                        ce, cn = np.broadcast_arrays(e1[np.newaxis, :], n1[:, np.newaxis])
+                    elif form == 2:
+                        ce, cn = np.broadcast_to(e1[0], (n1.size, e1.size)), np.ascontiguousarray(np.add.outer(n1, e1 * 1e-3))
+                    else:
+                        ce, cn = np.ascontiguousarray(np.add.outer(n1 * 1e-3, e1)), np.broadcast_to(n1[:, np.newaxis], (n1.size, e1.size))
+                    run.count("class:zero_stride_coordinates")
                 coords = (ce, cn) if rng.random() < 0.6 else (ce, cn, np.asarray(ce) * 0 + 7)
                 region = vd.get_region(coords)
                 if np.asarray(coords[0]).dtype.kind in "iu" and np.abs(np.asarray(coords[0], dtype="float64")).max() > 2 ** 52 or np.asarray(coords[0]).dtype == np.longdouble:
@@ -519,6 +533,12 @@ def run_case(run, tap, stream, index, rng):
             run.sample("scatter", {"region": region, "size": size, "seed": seed, "easting_head": first[0][:5]})
         elif stream == "project":
             region0 = _region(rng, degenerate_ok=False)
+            # a meridian or parallel segment (exactly one zero-extent dimension), and a single point
+            w0, e0, s0, n0 = region0
+            for seg in ([w0, w0, s0, n0], [w0, e0, n0, n0], [e0, e0, s0, s0]):
+                for name, proj, _ in _projections(rng, None)[:3]:
+                    vd.project_region(seg, proj)
+                    run.count("class:project_zero_extent_region")
             for name, proj, monotone in _projections(rng, region0):
                 region = region0 if name in ("polar", "bowl", "dome", "orthographic") else _region(rng, degenerate_ok=False)
                 res = vd.project_region(region, proj)
